@@ -80,7 +80,9 @@ FunctionSubstringAfter::execute(
 
         if (theSecondStringLength == 0)
         {
-            return arg1;
+            // The result is the string value of the first
+            // argument, not the argument itself.
+            return executionContext.getXObjectFactory().createString(theFirstString);
         }
         else
         {
